@@ -17,6 +17,7 @@ from datetime import datetime, timedelta, timezone
 
 T0 = datetime(2024, 1, 1, tzinfo=timezone.utc)
 PERIOD = timedelta(seconds=1)
+PERIODS = [timedelta(seconds=0.1), timedelta(seconds=0.3), timedelta(seconds=0.05), timedelta(seconds=2), timedelta(seconds=0.7)]
 
 
 class Model:
@@ -29,10 +30,10 @@ class Model:
 
     @staticmethod
     def slot_of(ts):
-        q = (ts - T0) / PERIOD
-        fl = math.floor(q)
-        frac = q - fl
-        if frac > 0.5 or (frac == 0.5 and fl % 2 != 0):
+        us = (ts - T0) // timedelta(microseconds=1)          # exact integer arithmetic, whatever the period
+        per = PERIOD // timedelta(microseconds=1)
+        fl, rem = divmod(us, per)
+        if 2 * rem > per or (2 * rem == per and fl % 2 != 0):
             fl += 1
         return fl
 
@@ -59,7 +60,8 @@ class Model:
 
 
 def ts_of(slot, offset=0.0):
-    return T0 + slot * PERIOD + timedelta(seconds=offset)
+    """slot on the grid plus `offset` periods."""
+    return T0 + slot * PERIOD + offset * PERIOD
 
 
 def make_buffer(cap, container):
@@ -256,9 +258,16 @@ def run(req):
         evaluations += 1
         # every third history: the buffer is dumped to disk and loaded again somewhere in the middle
         rt = rng.randrange(0, n) if (evaluations % 3 == 0 and n > 1) else None
-        distinct.add((cap, container, tuple(hist), rt))
-        f = run_history(cap, container, hist, win_offsets, known, roundtrip_at=rt)
+        # "every sampling period": half of the histories run on a period that is not 1 s (and not a binary fraction)
+        global PERIOD  # pylint: disable=global-statement
+        PERIOD = rng.choice(PERIODS) if evaluations % 2 == 0 else timedelta(seconds=1)
+        distinct.add((cap, container, tuple(hist), rt, PERIOD))
+        try:
+            f = run_history(cap, container, hist, win_offsets, known, roundtrip_at=rt)
+        finally:
+            used_period, PERIOD = PERIOD, timedelta(seconds=1)
         if f:
+            f = f"(sampling period {used_period.total_seconds()} s) " + f
             if rt is not None:
                 f = f"(with a dump/load round trip before update #{rt}) " + f
             return result(False, f, cap, container, hist, evaluations, distinct, known, samples, t0, exhaustive=False)
